@@ -104,7 +104,7 @@ class PartitionWellFormed(Contract):
 
     def instances(self, tier):
         out = []
-        for prog in D.PROGRAMS:
+        for prog in [*D.PROGRAMS, *D.EXTRA_VALID_PROGRAMS]:
             for size in SIZES:
                 for st in ("chain", "siblings"):
                     if st == "siblings" and tier != "thorough" and \
